@@ -418,10 +418,22 @@ fn main() {
             use syn::spanned::Spanned;
             ff.line_start = cl.span().start().line;
             ff.line_end = cl.span().end().line;
-            ff.block = match &*cl.body {
+            // `local NAME ORD` on a lifted closure: a captured variable the signature names; if the enclosing function calls it
+            // differently now (its ORD-th `let`), the closure body is renamed to the signature's name
+            let parent_lets = collect_lets(&ff.block);
+            let mut body_block = match &*cl.body {
                 Expr::Block(b) => b.block.clone(),
                 other => Block { brace_token: Default::default(), stmts: vec![Stmt::Expr(other.clone(), None)] },
             };
+            for (name, ord) in fs.locals.iter() {
+                if !parent_lets.contains(name) {
+                    if let Some(actual) = parent_lets.get(*ord) {
+                        let mut rn = RenameIdent { from: actual.clone(), to: name.clone() };
+                        rn.visit_block_mut(&mut body_block);
+                    }
+                }
+            }
+            ff.block = body_block;
             ff.sig = sig;
         }
         let name = ff.sig.ident.to_string();
@@ -506,7 +518,8 @@ fn main() {
         let local_ren: Vec<(String, String)> = {
             let lets = collect_lets(&ff.block);
             let mut ren = vec![];
-            for (name, ord) in fs.locals.iter() {
+            // (for a lifted closure the `local`s are captured variables: the closure body was renamed instead)
+            for (name, ord) in fs.locals.iter().filter(|_| fs.closure.is_none()) {
                 if !lets.contains(name) {
                     match lets.get(*ord) {
                         Some(actual) => ren.push((name.clone(), actual.clone())),
@@ -842,4 +855,18 @@ fn collect_lets(b: &Block) -> Vec<String> {
     let mut v = V(vec![]);
     syn::visit::Visit::visit_block(&mut v, b);
     v.0
+}
+
+
+/// rename every use of the identifier `from` (expressions and patterns) to `to`
+struct RenameIdent {
+    from: String,
+    to: String,
+}
+impl VisitMut for RenameIdent {
+    fn visit_ident_mut(&mut self, i: &mut Ident) {
+        if *i == self.from {
+            *i = Ident::new(&self.to, i.span());
+        }
+    }
 }
